@@ -31,6 +31,9 @@ Lemma ==
   /\ Norm(R) = R
   \* a threshold in the result is a proper one
   /\ R.p = "thresh" => R.n >= 1 /\ R.n <= Len(R.xs) /\ Len(R.xs) >= 2
+\* the entailment algorithm against truth-table implication, on all ordered pairs of a sub-domain
+EntDom == Leaves \cup T1 \cup T2 \cup {x \in N2 : Len(x.xs) = 2 /\ x.xs[2].p # "thresh"}
+EntLemma == P \in T2 \cup Leaves => \A C \in EntDom : EntailsAlg(P, C) = Entails(P, C) /\ EntailsAlg(C, P) = Entails(C, P)
 Count == Cardinality(All)
 ASSUME PrintT(<<"domain", Count>>)
 =============================================================================
